@@ -274,7 +274,7 @@ def build_events():
         "fail:kw_flag": lambda: UBXMessage("ESF", "ESF-ALG", GET, autoMntAlgOn=5),
         "fail:unknown_name": lambda: UBXMessage("CFG", "CFG-XXX", SET),
         "fail:bad_msgmode": lambda: UBXMessage("CFG", "CFG-MSG", 9),
-        "fail:mga_no_type": lambda: UBXMessage("MGA", "MGA-GPS-EPH", SET, svId=1),
+        "fail:mga_no_type": lambda: UBXMessage("MGA", "MGA-GPS-EPH", SET, type=1, svId=1),
         "fail:valget_kw": lambda: UBXMessage("CFG", "CFG-VALGET", GET, version=0),
         "fail:config_too_many": lambda: UBXMessage.config_del(0, 0, ["CFG_UART1_BAUDRATE"] * 65),
         "fail:config_bad_key": lambda: UBXMessage.config_set(0, 0, [("FOO_BAR", 1)]),
@@ -514,6 +514,13 @@ def thread_ops():
         "tp5_poll": lambda: _light(UBXMessage("CFG", "CFG-TP5", POLL, tpIdx=1)),
         "tp5_set": lambda: _light(UBXMessage("CFG", "CFG-TP5", SET, tpIdx=1, freqPeriod=5, active=1)),
         "fail_build": lambda: UBXMessage("CFG", "CFG-GNSS", SET, numConfigBlocks=2, gnssId_01=1, gnssId_02="x"),
+        # scaled attributes with values whose quotient by the scale is not exactly representable (2**-n and 1e-n scales):
+        # the encoding must not depend on the thread that performs it (thread-local numeric contexts)
+        "build_scaled": lambda: (
+            _light(UBXMessage("MGA", "MGA-GPS-EPH", SET, type=1, svId=3, sqrtA=2702013314 * 2 ** -19, e=123456789 * 2 ** -33, cic=-321 * 2 ** -29)),
+            _light(UBXMessage("NAV", "NAV-POSLLH", GET, lon=-84.1796521, lat=53.4507165, height=841796.52)),
+            _light(UBXMessage("NAV", "NAV-DOP", GET, gDOP=84.17, pDOP=0.29, tDOP=1.15)),
+        ),
         "esf_meas": lambda: _light(UBXMessage("ESF", "ESF-MEAS", SET, timeTag=1, numMeas=2, calibTtagValid=1, dataField_01=5, dataType_02=9, dataField_03=77)),
     }
     return ops
@@ -616,6 +623,8 @@ def replay_inproc(case):
         snapshot_table_names()
         D_IMPORT[0], D_IMPORT[1] = module_digest("tables")[0], module_digest("other")[0]
         judge_history(tuple(case["events"]), acc, digest=True)
+    elif k == "threadvals":
+        _eval_block(("threadvals",), acc)
     elif k == "readerhist":
         cfg = case["cfg"]
         al = lambda t: streams.item_sigs(streams.run_reader(streams.TOKENS[t][2], cfg))  # noqa: E731
@@ -687,6 +696,27 @@ def _eval_block(block, acc):
         history_block(block[1], block[2], acc, block[3] if len(block) > 3 else None)
         if len(acc.samples) < 1:
             acc.sample({"history": [block[1][0]] + (["<every event of the (sub-)alphabet>"] * (block[2] - 1)), "then": "probe set", "digest_nodes": acc.extra["digest_nodes"]})
+    elif kind == "threadvals":
+        # the same construction in the importing thread and in a freshly started thread (no interleaving at all), in
+        # a fresh interpreter (mc/threadvals.py):
+        # scaled attributes over 2**-n and 1e-n scales with 64 consecutive raw values each, whose decimal
+        # representation lies on either side of the exact quotient
+        import json
+        import subprocess
+        r = subprocess.run([sys.executable, "-m", "mc.threadvals"], capture_output=True, text=True, cwd=boot.VERIF_ROOT, env=dict(os.environ))
+        try:
+            res = json.loads(r.stdout.strip().splitlines()[-1])
+        except Exception:  # noqa: BLE001
+            raise engine.Broken(f"mc.threadvals failed: {r.stdout[-300:]} {r.stderr[-300:]}")
+        here, there, again = res["here"], res["there"], res["again"]
+        acc.evaluations += 2 * len(here)
+        acc.transitions += 2 * len(here)
+        diff = [i for i, (a, b) in enumerate(zip(here, there)) if a != b]
+        if diff or len(there) != len(here):
+            acc.violation("result_depends_on_the_thread_that_computes_it", {"kind": "threadvals"}, f"{len(diff)} of {len(here)} constructions differ, first: {here[diff[0]][:60] if diff else None} vs {there[diff[0]][:60] if diff else None}")
+        if again != here:
+            acc.violation("result_depends_on_history|threadvals", {"kind": "threadvals"}, "")
+        acc.outcomes[("threadvals", len(set(here)))] += 1
     elif kind == "readerhist":
         # one reader, two frames: what it delivers for the second frame must be what a fresh reader delivers for
         # that frame alone (items(A+B) == items(A) + items(B)) - for every ordered pair of frame tokens, 4 modes
@@ -756,7 +786,7 @@ def run_tier(tier, t0):
     pairs = list(itertools.combinations_with_replacement(ops, 2))
     QUICK_PAIRS = [("parse_gnss_1", "parse_gnss_2"), ("parse_gnss_2", "parse_gnss_2"), ("build_gnss", "parse_gnss_1"), ("build_gnss", "build_gnss"),
                    ("config_set", "parse_valget"), ("tp5_poll", "tp5_set"), ("tp5_poll", "tp5_poll"), ("build_gnss", "fail_build"),
-                   ("fail_build", "parse_gnss_2"), ("esf_meas", "esf_meas"), ("esf_meas", "parse_gnss_1"), ("config_set", "config_set")]
+                   ("fail_build", "parse_gnss_2"), ("build_scaled", "build_scaled"), ("build_scaled", "parse_gnss_1"), ("esf_meas", "esf_meas"), ("esf_meas", "parse_gnss_1"), ("config_set", "config_set")]
     if q:
         pairs = [p for p in pairs if p in QUICK_PAIRS]
     K = 4
@@ -765,6 +795,7 @@ def run_tier(tier, t0):
             for k in range(K):
                 blocks.append(("sched", [a, b], 1, None, first, (k, K)))
     blocks += [("readerhist", m) for m in range(4)]
+    blocks.append(("threadvals",))
     COLD_PAIRS = [("parse_valget", "parse_valget"), ("config_set", "parse_valget"), ("config_set", "config_set"), ("parse_gnss_1", "parse_gnss_2"), ("build_gnss", "parse_gnss_1"), ("tp5_poll", "tp5_set")]
     for a, b in (COLD_PAIRS if q else pairs):
         for first in (0, 1):
